@@ -58,6 +58,14 @@ def waitFailsAfterPatch (wl : Workload) : Bool :=
     empty object -/
 def gRestoredDeploy (kind : Kind) (wl : Workload) : Bool := kind = .deployment && restored wl
 
+/-- `deployFinalizeRetry`, seen from two consecutive attempts: the Deployment `Finalize` patches, its wait fails, and
+    the next attempt will find the object restored -/
+def gFinalizeWaitFails (kind : Kind) (op : Op) (w : World) (br : BR) : Bool :=
+  kind = .deployment && op = .fin && !br.partitioned &&
+  (match w.wl with
+   | some wl => !restored wl && waitFailsAfterPatch wl
+   | none => false)
+
 /-- `csPartitionKept`: CloneSet `Finalize` never touches `updateStrategy.partition` -/
 def gCsPartition (kind : Kind) (wl : Workload) : Bool := kind = .cloneSet && wl.partition.isSome
 
